@@ -157,10 +157,13 @@ def fix(
     if not fix_even_unparsable:
         # If fix_even_unparsable wasn't set, check for templating or parse
         # errors and suppress fixing if there were any.
-        _, num_filtered_errors = result.count_tmp_prs_errors()
-        if num_filtered_errors > 0:
+        # NOTE: Use the total (unfiltered) count so that suppressed errors
+        # (e.g. via noqa or ignore) block fixing too, matching the CLI.
+        total_errors, _ = result.count_tmp_prs_errors()
+        if total_errors > 0:
             should_fix = False
-    if should_fix:
+    # Without a parse tree (e.g. a fatal parsing error) there is nothing to fix.
+    if should_fix and result.paths[0].files[0].tree:
         sql = result.paths[0].files[0].fix_string()[0]
     return sql
 
